@@ -24,6 +24,13 @@ func Goid() int64 {
 	return n
 }
 
+// Event is the release of a participant from a yield point (or the arrival of an unnamed one at its exit point).
+type Event struct {
+	Label string
+	T     int64
+	Gid   int64
+}
+
 type parked struct {
 	gid   int64
 	point string
@@ -41,6 +48,8 @@ type Sched struct {
 	exempt   map[int64]bool
 	Unnamed  string // label for goroutines that did not register (the timer goroutine)
 	ExitPt   string // a point that means "this unnamed goroutine is finished"; released at once
+	Clock    func() int64 // logical clock shared with the harness (optional)
+	Events   []Event
 	Settle   time.Duration
 	Blocked  time.Duration // how long to wait for a released goroutine that neither parks nor finishes (blocked on a real lock)
 }
@@ -131,6 +140,12 @@ func (s *Sched) Go(name string, f func()) {
 	<-started
 }
 
+func (s *Sched) event(label string, gid int64) {
+	if s.Clock != nil {
+		s.Events = append(s.Events, Event{Label: label, T: s.Clock(), Gid: gid})
+	}
+}
+
 func (s *Sched) label(p *parked) string {
 	s.mu.Lock()
 	n := s.names[p.gid]
@@ -173,6 +188,7 @@ func (s *Sched) Run(nOps int, choices []int, watchdog time.Duration) *Result {
 				_, named := s.names[p.gid]
 				s.mu.Unlock()
 				if !named && p.point == s.ExitPt {
+					s.event(s.label(p), p.gid)
 					close(p.rel)
 					if lastReleased == p.gid {
 						lastReleased = -1
@@ -212,6 +228,7 @@ func (s *Sched) Run(nOps int, choices []int, watchdog time.Duration) *Result {
 				case p := <-s.arrive:
 					lastEvent = time.Now()
 					if p.point == s.ExitPt {
+						s.event(s.label(p), p.gid)
 						close(p.rel)
 					} else {
 						live[p.gid] = p
@@ -258,6 +275,7 @@ func (s *Sched) Run(nOps int, choices []int, watchdog time.Duration) *Result {
 		}
 		lastReleased = p.gid
 		lastEvent = time.Now()
+		s.event(labels[c], p.gid)
 		close(p.rel)
 	}
 }
